@@ -83,7 +83,7 @@ var zooTypes = []interface{}{
 	zoo.Scalars{}, zoo.Small{}, zoo.Slices{}, zoo.Conts{}, zoo.Derived{}, zoo.CustomHolder{}, zoo.Custom{},
 	zoo.NamedMapHolder{}, zoo.Node{}, zoo.FNode{}, zoo.Ping{}, zoo.Pong{}, zoo.Wide{}, zoo.Five{},
 	zoo.HI{}, zoo.HI8{}, zoo.HI16{}, zoo.HI32{}, zoo.HI64{}, zoo.HU{}, zoo.HU8{}, zoo.HU16{}, zoo.HU32{}, zoo.HU64{},
-	zoo.HF32{}, zoo.HF64{}, zoo.HStr{}, zoo.HBin{}, zoo.HTime{}, zoo.HBool{}, zoo.HPTime{},
+	zoo.HF32{}, zoo.HF64{}, zoo.HStr{}, zoo.HBin{}, zoo.HTime{}, zoo.HBool{}, zoo.HPTime{}, zoo.Named{},
 }
 
 var topTypes = []interface{}{
@@ -92,6 +92,7 @@ var topTypes = []interface{}{
 	[]time.Time{}, []uint16{}, []float32{}, map[string][]int32{}, []map[string]int32{}, zoo.NamedMap{},
 	int32(0), int64(0), int(0), int8(0), int16(0), uint8(0), uint16(0), uint32(0), uint(0), uint64(0),
 	float32(0), float64(0), "", []byte{}, true, time.Time{},
+	zoo.Color(0), zoo.Label(""), zoo.Ratio(0), zoo.Flag(false), zoo.Big(0), []zoo.Color{}, map[zoo.Label]zoo.Big{},
 }
 
 var directedLens = []int{0, 1, 2, 7, 8, 9, 15, 16, 17, 31, 32, 33, 255, 256, 257, 263, 264, 511, 512, 600}
@@ -273,6 +274,13 @@ func famC07(e *emitter, g *gen.G, thorough bool) {
 		e.emit(fmt.Sprintf("iflist/%d", i), []interface{}{int32(v), v, int16(v), uint32(v)})
 		e.emit(fmt.Sprintf("mapkv/%d", i), zoo.Conts{MI: map[int32]string{int32(v): "x"}, ML64: map[int64]int64{v: v, v >> 5: v >> 3}})
 		e.emit(fmt.Sprintf("topmap/%d", i), map[int32]int64{int32(v): v})
+		if i%3 == 0 { // declared integer types in every position
+			e.emit(fmt.Sprintf("named/%d", i), &zoo.Named{C: zoo.Color(v), B: zoo.Big(v), T: zoo.Tiny(v), Cs: []zoo.Color{zoo.Color(v), 1},
+				M: map[zoo.Label]zoo.Color{"k": zoo.Color(v)}})
+			e.emit(fmt.Sprintf("namedtop/%d", i), zoo.Big(v))
+			e.emit(fmt.Sprintf("namedlist/%d", i), []zoo.Big{zoo.Big(v), zoo.Big(v >> 3)})
+			e.emit(fmt.Sprintf("namedmap/%d", i), map[zoo.Big]zoo.Color{zoo.Big(v): zoo.Color(v)})
+		}
 		e.emit(fmt.Sprintf("umap/%d", i), &zoo.Conts{MU64: map[uint64]uint64{uint64(v): uint64(v), uint64(v) >> 3: uint64(v) + 1},
 			MI8: map[int8]uint16{int8(v): uint16(v)}})
 		e.emit(fmt.Sprintf("topumap/%d", i), map[uint64]uint32{uint64(v): uint32(v)})
